@@ -41,7 +41,7 @@ fn chk_offsets(c: &mut Ctx, content: &str) {
     c.evaluated += 1;
     let input = format!("OFFSETS|{}", content.replace('\\', "\\\\").replace('\r', "\\r").replace('\n', "\\n"));
     let owned = content.to_string();
-    match guarded(move || { let lines: Vec<&str> = owned.lines().collect(); let n = lines.len(); let lens: Vec<String> = lines.iter().map(|l| l.to_string()).collect(); (region_fs_offsets(n, lines, owned.clone()), lens) }) {
+    match guarded(move || { let lines: Vec<&str> = owned.lines().collect(); let n = lines.len(); let lens: Vec<String> = lines.iter().map(|l| l.to_string()).collect(); { let l2 = lines.clone(); let a = region_fs_offsets(n, lines, owned.clone()); let b = region_fs_offsets_rebase(n, l2, owned.clone()); (if a == b { a } else { vec![usize::MAX; a.len().max(1)] }, lens) } }) {
         Err(p) => c.fail("region_fs_offsets", "safety", input, p, "no panic".into()),
         Ok((starts, lines)) => {
             if starts.len() != lines.len() { c.fail("region_fs_offsets", "ensures#0", input, format!("{} entries", starts.len()), format!("{} lines", lines.len())); return; }
